@@ -298,7 +298,11 @@ def getreg(a, f):
                 x = fsr2 + x
             return mem(x, 8)
         else:
-            return SFRs[f]
+            r = SFRs[f]
+            if r is None:
+                # unimplemented SFR location: plain data memory byte
+                r = mem(cst(0xF00 + f, 12), 8)
+            return r
     else:  # bsr-bank
         return mem(x, 8, seg=bsr)
 
